@@ -163,16 +163,28 @@ def def_count(A, thr, k):
                Implies(Z(k) >= 0, count_gt(A, thr, k + 1) == count_gt(A, thr, k) + If(A[k] > thr, 1, 0)))
 
 
-_i, _j = z3.Int("i!q"), z3.Int("j!q")
+# Array pre-conditions are *named predicates* whose meaning is a quantified formula; proofs use the definition only
+# through instances (forall-elimination), so every query stays quantifier-free and failed obligations carry models:
+#     all_nonneg(A, n)   :=  forall i.   0 <= i < n       =>  A[i] >= 0
+#     sorted_desc(A, n)  :=  forall i j. 0 <= i <= j < n  =>  A[i] >= A[j]
+# A caller establishes a callee's pre-condition by exhibiting the same predicate on the same array (the trim functions
+# assume it of the spectrum they are given and pass that spectrum on).
+all_nonneg = z3.Function("all_nonneg", AS, IntS, z3.BoolSort())
+sorted_desc = z3.Function("sorted_desc", AS, IntS, z3.BoolSort())
 
 
-def nonneg(A, n):
-    return z3.ForAll([_i], Implies(And(0 <= _i, _i < n), A[_i] >= 0), patterns=[A[_i]])
+def inst_nonneg(A, n, i):
+    """definition of all_nonneg at index i"""
+    return Implies(And(all_nonneg(A, n), Z(i) >= 0, Z(i) < n), A[i] >= 0)
 
 
-def sorted_desc(A, n):
-    return z3.ForAll([_i, _j], Implies(And(0 <= _i, _i <= _j, _j < n), A[_i] >= A[_j]),
-                     patterns=[z3.MultiPattern(A[_i], A[_j])])
+def inst_sorted(A, n, i, j):
+    """definition of sorted_desc at indices i <= j"""
+    return Implies(And(sorted_desc(A, n), Z(i) >= 0, Z(i) <= j, Z(j) < n), A[i] >= A[j])
+
+
+def inst_array_pre(A, n, i):
+    return And(inst_nonneg(A, n, i), inst_sorted(A, n, 0, i), inst_sorted(A, n, i, i + 1))
 
 
 # ---- instances of proved lemmas (each function names its lemma) ------------------------------------------------
@@ -185,25 +197,25 @@ def lem_split(A, p, n, k):
 
 def lem_tail_mono(A, p, n, j, k):
     """lemma tail-monotone (needs A >= 0 on [0,n)):  0 <= j <= k <= n  =>  tail(j) >= tail(k)"""
-    return Implies(And(Z(j) >= 0, Z(j) <= k, Z(k) <= n), tailsum(A, pR(p), n, j) >= tailsum(A, pR(p), n, k))
+    return Implies(And(all_nonneg(A, n), Z(j) >= 0, Z(j) <= k, Z(k) <= n), tailsum(A, pR(p), n, j) >= tailsum(A, pR(p), n, k))
 
 
 def lem_tail_nonneg(A, p, n, k):
     """lemma tail-monotone with k = n: tail(j) >= tail(n) = 0"""
-    return Implies(And(Z(k) >= 0, Z(k) <= n), tailsum(A, pR(p), n, k) >= 0)
+    return Implies(And(all_nonneg(A, n), Z(k) >= 0, Z(k) <= n), tailsum(A, pR(p), n, k) >= 0)
 
 
-def lem_presum_mono(A, p, j, k):
-    """lemma presum-monotone (needs A >= 0 on [0,k)):  0 <= j <= k  =>  presum(j) <= presum(k)"""
-    return Implies(And(Z(j) >= 0, Z(j) <= k), presum(A, pR(p), j) <= presum(A, pR(p), k))
+def lem_presum_mono(A, p, n, j, k):
+    """lemma presum-monotone (needs A >= 0 on [0,n)):  0 <= j <= k <= n  =>  presum(j) <= presum(k)"""
+    return Implies(And(all_nonneg(A, n), Z(j) >= 0, Z(j) <= k, Z(k) <= n), presum(A, pR(p), j) <= presum(A, pR(p), k))
 
 
 def lem_count_boundary(A, thr, n, j):
     """lemma count-boundary at m(i) := A_i > thr (monotone because A is sorted descending):
     c = count_gt(A,thr,n):  0 <= c <= n,  j < c => A_j > thr,  c <= j < n => A_j <= thr"""
     c = count_gt(A, thr, n)
-    return And(0 <= c, c <= n, Implies(And(Z(j) >= 0, Z(j) < c), A[j] > thr),
-               Implies(And(c <= j, Z(j) < n), A[j] <= thr))
+    return Implies(sorted_desc(A, n), And(0 <= c, c <= n, Implies(And(Z(j) >= 0, Z(j) < c), A[j] > thr),
+                                          Implies(And(c <= j, Z(j) < n), A[j] <= thr)))
 
 
 def count_cum(op):
@@ -219,7 +231,8 @@ def lem_cumcount_boundary(A, p, T, n, k, op="<"):
         return True  # not a monotone non-increasing mask: no boundary reading
     c = count_cum(op)(A, pR(p), T, n)
     below = presum(A, pR(p), k) < T if op == "<" else presum(A, pR(p), k) <= T
-    return And(0 <= c, c <= n, Implies(And(Z(k) >= 1, Z(k) <= c), below), Implies(And(c < k, Z(k) <= n), Not(below)))
+    return Implies(all_nonneg(A, n), And(0 <= c, c <= n, Implies(And(Z(k) >= 1, Z(k) <= c), below),
+                                         Implies(And(c < k, Z(k) <= n), Not(below))))
 
 
 # --------------------------------------------------------------------------------------------------------------
@@ -639,6 +652,8 @@ class NumModel(Contract):
                 return self.vec_slice(cx, base, lo, hi, line)
             if P.is_int(idx):
                 cx.oblige(f"index@{line}", "safety", And(Z(idx) >= 0, Z(idx) < base.length()), line)
+                if is0(base.lo):
+                    cx.assume(inst_array_pre(base.a, Z(base.hi), idx))  # definitions of all_nonneg / sorted_desc at idx
                 return base.elem(idx)
             raise Unsupported(f"vector subscript {idx!r}")
         if isinstance(base, CumSum):
@@ -655,7 +670,7 @@ class NumModel(Contract):
                 # leaf (definition of cumsum): entry k is the sum of the first k+1 elements.
                 # lemma presum-monotone + definition at 0: presum(k+1) >= presum(1) = A_0^p
                 cx.assume(def_presum(v.a, v.power, 0))
-                cx.assume(lem_presum_mono(v.a, v.power, 1, idx + 1))
+                cx.assume(lem_presum_mono(v.a, v.power, Z(v.hi), 1, idx + 1))
                 return presum(v.a, pR(v.power), idx + 1)
             raise Unsupported(f"cumsum subscript {idx!r}")
         if P.is_val(base) and isinstance(idx, tuple) and len(idx) == 2 and all(_is_slice(x) for x in idx):
@@ -671,8 +686,12 @@ class NumModel(Contract):
         return NotImplemented
 
     def m_binop(self, cx, op, a, b, line):
-        if op == "Pow" and isinstance(a, Vec) and P.is_int(b) and a.plain:
-            return Vec(a.a, a.lo, a.hi, 1, b)
+        if op == "Pow" and isinstance(a, Vec) and P.is_int(b):
+            if a.plain:
+                return Vec(a.a, a.lo, a.hi, 1, b)
+            # power of an already scaled / powered vector: not needed by the carriers; over-approximate by an
+            # unknown array (whatever is computed from it cannot be proved equal to the spec)
+            return Vec(cx.Array("derived", IntS, RealS), a.lo, a.hi, 1, b)
         if op == "Pow" and isinstance(a, One):
             return One(self.m_root(cx, a.v, b))
         if op == "Mult":
@@ -792,7 +811,7 @@ class KeepNumba(NumModel):
         s = a.s
         if not (isinstance(s, Vec) and s.plain and is0(s.lo)):
             raise Unsupported("_compute_number_svals_to_keep_numba on a derived vector")
-        d = {"len>=1": Z(s.hi) >= 1, "nonneg": nonneg(s.a, s.hi), "sorted": sorted_desc(s.a, s.hi)}
+        d = {"len>=1": Z(s.hi) >= 1, "nonneg": all_nonneg(s.a, Z(s.hi)), "sorted": sorted_desc(s.a, Z(s.hi))}
         if not isinstance(a.cutoff_mode, int):
             d["mode-valid"] = Or(*[a.cutoff_mode == mode_code(m) for m in MODE_NAMES])
         else:
@@ -805,6 +824,8 @@ class KeepNumba(NumModel):
             cx.assume(c)  # lemma count-boundary (premise: sorted, from requires)
         for p in (1, 2):
             cx.assume(def_tail(A, p, n, 0))
+        cx.assume(inst_array_pre(A, n, 0))
+        cx.assume(inst_array_pre(A, n, JSK))
         return keep_rule(A, n, a.cutoff, a.cutoff_mode, r)
 
     def fresh_result(self, cx, a, case):
@@ -879,7 +900,7 @@ class RenormNumba(NumModel):
         s = a.s
         if not (isinstance(s, Vec) and s.plain and is0(s.lo)):
             raise Unsupported("_compute_svals_renorm_factor_numba on a derived vector")
-        d = {"len>=1": Z(s.hi) >= 1, "n_chi-range": And(1 <= a.n_chi, a.n_chi <= s.hi), "nonneg": nonneg(s.a, s.hi),
+        d = {"len>=1": Z(s.hi) >= 1, "n_chi-range": And(1 <= a.n_chi, a.n_chi <= s.hi), "nonneg": all_nonneg(s.a, Z(s.hi)),
              "nonzero": s.a[0] > 0}
         if isinstance(a.renorm, int):
             d["renorm-domain"] = a.renorm in (1, 2)
@@ -1052,36 +1073,25 @@ class TrimBase(NumModel):
     def spec_array(self, a):
         return z3.If(a.use_abs, a._B, a._A)
 
-    quantified = True  # pre-conditions as quantified formulas (needed to establish the callee pre-conditions)
-
     def pre_instance(self, a, k):
-        """instance at index k of the quantified pre-conditions: definition of |s|, non-negative, sorted descending"""
+        """definitions at index k: the ghost array |s| (leaf np.abs / xp.abs: elementwise), all_nonneg, sorted_desc"""
         n, A, B, SA = a._n, a._A, a._B, self.spec_array(a)
         k = Z(k)
-        return And(B[k] == If(A[k] >= 0, A[k], -A[k]),
-                   Implies(And(0 <= k, k < n), And(SA[k] >= 0, SA[0] >= SA[k])),
-                   Implies(And(0 <= k, k + 1 < n), SA[k] >= SA[k + 1]))
+        return And(B[k] == If(A[k] >= 0, A[k], -A[k]), inst_array_pre(SA, n, k))
 
     def requires(self, a, case):
         """pre-condition: len(s) >= 1; max_bond = -1 or >= 1; the spectrum the rule looks at (|s| if use_abs else s) is
-        non-negative and sorted descending; non-zero (s_0 > 0) when renormalisation is requested; U has len(s) columns
-        and VH len(s) rows.  With ``quantified = False`` the array conditions are given through their instances at the
-        indices the proof mentions (0 here, N-1, N and the skolem index in trim_post): a weaker assumption, hence sound,
-        and quantifier-free so that failed obligations come with models."""
-        n, A, B, ua = a._n, a._A, a._B, a.use_abs
+        non-negative and sorted descending (predicates all_nonneg / sorted_desc, used through instances of their
+        definitions only); non-zero (s_0 > 0) when renormalisation is requested; U has len(s) columns and VH len(s)
+        rows."""
+        n = a._n
         SA = self.spec_array(a)
         d = {"len>=1": n >= 1, "max_bond-domain": Or(a.max_bond == -1, a.max_bond >= 1),
              # shapes: U has len(s) columns, VH has len(s) rows; slicing up to the full extent is the identity
              "def-slice-full": And(colslice(a.U, n) == a.U, rowslice(a.VH, n) == a.VH),
-             "nonzero": Implies(P.num_cmp(">", a.renorm, 0), SA[0] > 0)}
-        if self.quantified:
-            # definition of the ghost array |s| (leaf np.abs / xp.abs: elementwise)
-            d["def-abs"] = z3.ForAll([_i], B[_i] == If(A[_i] >= 0, A[_i], -A[_i]), patterns=[B[_i]])
-            for X, g, nm in ((B, ua, "abs"), (A, Not(ua), "plain")):
-                d[f"nonneg-{nm}"] = Implies(g, nonneg(X, n))
-                d[f"sorted-{nm}"] = Implies(g, sorted_desc(X, n))
-        else:
-            d["pre@0"] = self.pre_instance(a, 0)
+             "nonneg": all_nonneg(SA, n), "sorted": sorted_desc(SA, n),
+             "nonzero": Implies(P.num_cmp(">", a.renorm, 0), SA[0] > 0),
+             "def@0": self.pre_instance(a, 0)}
         if not isinstance(a.renorm, int):
             d["renorm-domain"] = a.renorm >= 3
         if not isinstance(a.cutoff_mode, int):
@@ -1099,7 +1109,8 @@ class TrimBase(NumModel):
 
     def record_absorb(self, cx, U, s, VH, absorb):
         sval = s.val() if isinstance(s, Vec) else (s if P.is_val(s) else NONE_V)
-        out = absorbed_form(U, sval, VH, Z(absorb))
+        absorb = absorb if P.is_val(absorb) else (NONE_V if absorb is None else P.as_val(absorb))
+        out = absorbed_form(U, sval, VH, absorb)
         cx.ghost["absorb_call"] = NS(U=U, s=s, VH=VH, absorb=absorb, out=out)
         return out
 
@@ -1210,7 +1221,6 @@ class TrimNumba(TrimBase):
 class TrimGeneric(TrimBase):
     target = f"{DEC}::_trim_and_renorm_svd_result"
     mode_cases = MODE_NAMES
-    quantified = False
 
     def inputs(self, cx, case):
         d = self.common_inputs(cx, case)
